@@ -100,6 +100,10 @@ CORPUS_PROGS = [
     ("def f(a: bool, b: bool, c: bool) -> Tuple[bool, bool]:\n    d = a and b\n    e = d and c\n    d = not d\n    return (d, e != a)\n", [["a", "bool"], ["b", "bool"], ["c", "bool"]], ["bool", "bool"]),
     ("def f(a: Qint[2], b: Qint[2]) -> Qint[2]:\n    c = a + b\n    e = c & b\n    c = ~c\n    return c\n", [["a", "Qint2"], ["b", "Qint2"]], "Qint2"),
     ("def f(a: bool, b: bool) -> bool:\n    d = a ^ b\n    e = d or a\n    d = not d\n    return d\n", [["a", "bool"], ["b", "bool"]], "bool"),
+    # scratch variables whose names start like the return symbol
+    ("def f(a: bool, b: bool, c: bool) -> bool:\n    _retv = a and b\n    return _retv ^ c\n", [["a", "bool"], ["b", "bool"], ["c", "bool"]], "bool"),
+    ("def f(a: Qint[2], b: Qint[2]) -> Qint[2]:\n    _ret_tmp = a ^ b\n    return _ret_tmp + a\n", [["a", "Qint2"], ["b", "Qint2"]], "Qint2"),
+    ("def f(a: bool, b: bool, c: bool) -> Tuple[bool, bool]:\n    _ret0 = a or b\n    _ret1 = _ret0 and c\n    return (_ret1 ^ a, _ret0 and not c)\n", [["a", "bool"], ["b", "bool"], ["c", "bool"]], ["bool", "bool"]),
     # names that only differ from an internal name (or from each other) by leading underscores
     ("def f(ret: bool) -> bool:\n    return not ret\n", [["ret", "bool"]], "bool"),
     ("def f(ret: Qint[2], b: Qint[2]) -> Qint[2]:\n    return ~ret\n", [["ret", "Qint2"], ["b", "Qint2"]], "Qint2"),
